@@ -162,6 +162,29 @@ def check_rewrite_scope(ctx: Ctx) -> None:
     # (c) _collect_inline_segments: only RawText segments are mutable
     _segments_nodes_are_rawtext(ctx, report=True)
 
+    # (d) an inline scope is an element whose children are inline content (marko parses its `inline_body`); a scope that
+    #     holds blocks would glue several paragraphs into one composite text
+    rm = get_model(ctx)
+    scope, sd = _const_tuple(ctx, "flowmark.transforms.doc_transforms", "InlineScope")
+    for q in scope:
+        mc = rm.mm.classes.get(q)
+        ok = mc is not None and "inline_body" in rm.mm.all_attrs(mc)
+        ctx.ob("R-REWRITE-scope", f"flowmark.transforms.doc_transforms:InlineScope member {q.split('.')[-1]}", ok,
+               f"{q} does not carry inline content of its own (marko gives it no inline_body): as an inline scope it would join the text of "
+               "all its child blocks, so a rewrite could pair quotes across paragraphs", where(sd, sd.value))
+    # (e) autolinks: their child text node is reachable by the rewriters, so the renderer must print `dest`, never the children
+    for t in ("AutoLink", "Url"):
+        m = rm.methods.get(t)
+        if m is None:
+            continue
+        summ = rm.summary(m)
+        el = rm.el_param(m)
+        reads_children = any(a == f"{el}.children" or a.startswith(f"{el}.children.") for a in summ.attrs()) or any(
+            name.endswith("render_children") for name, _ in summ.calls)
+        ctx.ob("R-REWRITE-autolink", f"{m.qual} :: prints the destination, not the (rewritable) child text", not reads_children,
+               "the text node inside an autolink is visited by the text rewriters; rendering it instead of element.dest lets smart quotes / "
+               "ellipses change a URL", where(m, m.node))
+
 
 def _segments_nodes_are_rawtext(ctx: Ctx, report: bool = False) -> bool:
     repo, prog = ctx.repo, ctx.prog
